@@ -85,6 +85,8 @@ def write_evidence(ctx, nviol):
         'violations': nviol,
     }
     d = os.path.join(ROOT, 'evidence')
+    if os.environ.get('VP_REPO'):      # trial run against a scratch worktree: not evidence
+        d = os.path.join(ROOT, 'replays', 'scratch-evidence')
     os.makedirs(d, exist_ok=True)
     path = os.path.join(d, ctx.pid + '.json')
     tmp = path + '.tmp%d' % os.getpid()
@@ -104,6 +106,11 @@ def main(argv=None):
     args = ap.parse_args(argv)
     _pin()
     sys.path.insert(0, ROOT)
+    # Default: `placement` is imported from /repo (editable install). VP_REPO=<dir> points the
+    # checks at a scratch worktree instead (used only to try seeded changes without touching
+    # /repo); the registered commands never set it.
+    if os.environ.get('VP_REPO'):
+        sys.path.insert(0, os.environ['VP_REPO'])
     try:
         seed = int(os.environ.get('VERIF_SEED', '0'))
     except ValueError:
